@@ -163,6 +163,16 @@ def run (c : Content) : List Op → Content × List Out
 
 end Ref
 
+/-! ## Example content used by the non-vacuity examples of Props/C19.lean -/
+
+def gEx : GroupsD :=
+  [("public.kern1.O", ["O", "D", "Q"]), ("public.kern2.E", ["E", "F"]), ("other", ["O", "E"]),
+   ("public.kern2.O", ["O"])]
+
+def kEx : KernD :=
+  [(("public.kern1.O", "public.kern2.E"), -100), (("public.kern1.O", "F"), -200), (("D", "F"), -300),
+   (("Q", "public.kern2.E"), -50)]
+
 /-- the cache-introspection answer is the only output the cache-free machine cannot give -/
 def mask : Out → Out
   | .bools _ => .ok
